@@ -362,7 +362,8 @@ Definition jvp_tape (t : tape) (tg : list Z) (g : gradfn) : nat * (list Z -> res
   if Nat.eqb (tp_k t) 0 then
     (O, fun _ => Ok (if partitioned t then VTup (repeat (zero_all t) (tp_shots t)) else zero_all t))
   else if forallb (Z.eqb 0) tg then
-    (O, fun _ => Ok (zero_all t))                              (* the shortcut does not look at the shots *)
+    (O, fun _ => Ok (if partitioned t then VTup (repeat (zero_all t) (tp_shots t)) else zero_all t))
+                                                               (* one zero result per shot copy *)
   else (fst g, jvp_proc t tg g).
 
 (* ---------------- batch_vjp / batch_jvp processing_fn ---------------- *)
